@@ -194,13 +194,9 @@ func FinishSpeculativeLength(b []byte, pos int) []byte {
 	mlen := len(b) - pos - speculativeLength
 	msiz := protowire.SizeVarint(uint64(mlen))
 	if msiz != speculativeLength {
-		if cap(b) >= pos+msiz+mlen {
-			b = b[:pos+msiz+mlen]
-		} else {
-			newSlice := make([]byte, pos+msiz+mlen)
-			copy(newSlice, b)
-			b = newSlice
-		}
+		// make room with append, whose capacity grows geometrically: a buffer of exactly the needed size
+		// has to be reallocated (and copied as a whole) again for every enclosing message
+		b = append(b, "\x00\x00\x00\x00\x00\x00\x00\x00\x00\x00"[:msiz-speculativeLength]...)
 		copy(b[pos+msiz:], b[pos+speculativeLength:])
 	}
 	protowire.AppendVarint(b[:pos], uint64(mlen))
